@@ -1,4 +1,4 @@
-import TrionModel.Lemmas.LayoutCor
+import TrionModel.Lemmas.LayoutTop
 /-!
 # C05 — the program image equals the sequential layout of its statements (layout core)
 
@@ -38,11 +38,16 @@ region has been filled through 0xFFFFFFFF. `Align::apply` computes the padding f
 saturates at 0xFFFFFFFF; for every `n ≥ 2` dividing 2^32 − 1 (3, 5, 15, 17, 51, 85, 255, 257, …) it sees offset
 0 and accepts the statement without padding and without diagnostic, whereas the reference would have to pad
 from 2^32 up to the next multiple of `n` (addresses that do not exist). For the other `n ≥ 2` the
-implementation reports an overflow diagnostic (C13 records this). The proved theorem carries the precise side
-condition `NoAlignAtTop p` (Spec/Layout.lean): every `.align n` met at a reference cursor `c ≥ 2^32` needs no
-padding (`Ref.size c (.align n) = 0`); it holds in particular whenever the reference image lies inside the
-32-bit address space (`layout_refines_fits_partial`). Nothing else is missing: any number of regions in any address order, any mix of forward and
-backward references, labels, constants, zero-length statements, regions ending exactly at 2^32. -/
+implementation reports an overflow diagnostic (C13 records this).
+
+What IS true for every program, without side condition, is `layout_refines_below_top`: the image equals the
+reference image on all addresses below 2^32 and holds nothing at or beyond 2^32 — the reference's padding
+beyond the address space is the only difference. The full equality `layout_refines_partial` carries the precise
+side condition `NoAlignAtTop p` (Spec/Layout.lean): every `.align n` met at a reference cursor `c ≥ 2^32` needs
+no padding (`Ref.size c (.align n) = 0`); it holds in particular whenever the reference image lies inside the
+32-bit address space (`layout_refines_fits_partial`). Nothing else is missing: any number of regions in any
+address order, any mix of forward and backward references, labels, constants, zero-length statements, regions
+ending exactly at 2^32. -/
 
 /-- the counterexample to the unrestricted statement: `.addr 0xFFFFFFFF; .du8 0; .align 3;` assembles
 (real `trias`: "Assembled successfully"), the reference pads at 2^32 and 2^32 + 1. -/
@@ -57,8 +62,26 @@ example : run [Stmt.addr 4294967295, .raw [0], .align 3] = .ok [(4294967295, 0)]
     · exact absurd h1 (by decide)
     · exact absurd h1 (by decide)⟩
 
-/-- C05 (main theorem): on success the image is, address by address, the image of the two-pass reference:
-every statement's bytes at its address in source order, nothing else, no placeholder left. -/
+/-- C05 (main theorem, NO side condition): for every program, on success the image is the image of the
+two-pass reference restricted to the address space — below 2^32 every statement's bytes stand at their address
+in source order, nothing else, no placeholder left; at and beyond 2^32 the image holds nothing. (The only
+thing the unrestricted statement gets wrong is the padding the reference would put beyond 2^32.) -/
+theorem layout_refines_below_top (p : List Stmt) (img img' : Img) (h : run p = .ok img) (hwf : ∀ s ∈ p, s.wf)
+    (href : Ref.layout p = some img') :
+    (∀ a, a < top → img.get a = img'.get a) ∧ (∀ a, top ≤ a → img.get a = none) := by
+  obtain ⟨im, e1, hg, hn⟩ := run_pass2_below p img h hwf
+  rw [(layout_some p img' href).2] at e1
+  cases e1
+  exact ⟨hg, hn⟩
+
+/-- non-vacuity, in the corner itself -/
+example : run [Stmt.addr 4294967295, .raw [0], .align 3] = .ok [(4294967295, 0)] ∧
+    (∀ s ∈ [Stmt.addr 4294967295, .raw [0], .align 3], s.wf) ∧
+    ∃ img', Ref.layout [Stmt.addr 4294967295, .raw [0], .align 3] = some img' :=
+  ⟨rfl, by decide, _, rfl⟩
+
+/-- C05 (main theorem, full equality): on success the image is, address by address, the image of the two-pass
+reference: every statement's bytes at its address in source order, nothing else, no placeholder left. -/
 theorem layout_refines_partial (p : List Stmt) (img img' : Img) (h : run p = .ok img) (hwf : ∀ s ∈ p, s.wf)
     (hal : NoAlignAtTop p) (href : Ref.layout p = some img') : ∀ a, img.get a = img'.get a := by
   obtain ⟨im, e1, hg⟩ := run_pass2 p img h hwf hal
@@ -122,10 +145,9 @@ that assembles — whether its symbols were known when it was met or it was writ
 by the task queue, in the region still open or in one closed long before — the image holds `final` at the
 statement's reference address. -/
 theorem no_placeholder (p q r : List Stmt) (len : Nat) (deps : List Nat) (final : Bytes) (img : Img)
-    (h : run p = .ok img) (hwf : ∀ s ∈ p, s.wf) (hal : NoAlignAtTop p)
-    (hp : p = q ++ .emit len deps final :: r) :
+    (h : run p = .ok img) (hwf : ∀ s ∈ p, s.wf) (hp : p = q ++ .emit len deps final :: r) :
     ∃ c, Ref.cursorAfter none q = some c ∧ ∀ i, i < len → img.get (c + i) = final[i]? := by
-  obtain ⟨c, h1, h2⟩ := stmt_in_image p q r _ img h hwf hal hp rfl
+  obtain ⟨c, h1, h2⟩ := data_in_image p q r _ img h hwf hp rfl
   have hw : final.length = len := by
     have := hwf (.emit len deps final) (by rw [hp]; exact List.mem_append_right _ List.mem_cons_self)
     simpa [Stmt.wf] using this
@@ -135,11 +157,11 @@ example : ∃ c, Ref.cursorAfter none [Stmt.addr 260] = some c ∧
     ∀ i, i < 2 → Img.get [(256, 1), (257, 2), (258, 3), (259, 4), (260, 7), (261, 0), (260, 190), (261, 190)] (c + i)
       = [(7 : UInt8), 0][i]? :=
   no_placeholder [Stmt.addr 260, .emit 2 [1] [7, 0], .addr 256, .raw [1, 2, 3, 4], .const 1 [] 7]
-    [.addr 260] [.addr 256, .raw [1, 2, 3, 4], .const 1 [] 7] 2 [1] [7, 0] _ rfl (by decide)
-    (fun c n hc => by simp [Ref.trace, Ref.next] at hc) rfl
+    [.addr 260] [.addr 256, .raw [1, 2, 3, 4], .const 1 [] 7] 2 [1] [7, 0] _ rfl (by decide) rfl
 
-/-- C05 (every statement's bytes at its address): the same for every emitting statement (`raw`, `emit`,
-padding): its reference bytes stand at its reference address in the image. -/
+/-- C05 (every statement's bytes at its address): the same for every emitting statement (`raw`, `emit`, and
+padding — for padding the side condition is needed: the reference's padding beyond 2^32 is not in the image): its
+reference bytes stand at its reference address in the image. -/
 theorem every_statement_placed (p q r : List Stmt) (s : Stmt) (img : Img) (h : run p = .ok img)
     (hwf : ∀ s ∈ p, s.wf) (hal : NoAlignAtTop p) (hp : p = q ++ s :: r) (hs : s.emits) :
     ∃ c, Ref.cursorAfter none q = some c ∧
@@ -270,13 +292,13 @@ example : ∀ a, Img.get [(0, 7)] a = Img.get [(0, 7)] a :=
 IS the table of `Ref.pass1` — every label has the reference address of the next byte, every constant its
 value, and no value ever changes. -/
 theorem symbols_agree (p : List Stmt) (st : State) (h : steps {} p = .ok st) (hwf : ∀ s ∈ p, s.wf)
-    (hal : NoAlignAtTop p) (hl : NoLabelAtTop p) : Ref.pass1 none [] p = some st.env :=
-  steps_env p {} st none [] rel_init hwf hal hl h
+    (hl : NoLabelAtTop p) : Ref.pass1 none [] p = some st.env :=
+  steps_env2 p {} st none [] rel2_init hwf hl h
 
 example : Ref.pass1 none [] [Stmt.addr 8, .raw [1], .label 4, .const 5 [4] 9] = some [(5, 9), (4, 9)] :=
   symbols_agree [.addr 8, .raw [1], .label 4, .const 5 [4] 9]
     { closed := [], active := some { base := 8, buf := [1], maxLen := 4294967288 }, env := [(5, 9), (4, 9)], tasks := [] }
-    rfl (by decide) (fun c n hc => by simp [Ref.trace, Ref.next] at hc)
+    rfl (by decide)
     (fun c n hc => by
       simp [Ref.trace, Ref.next] at hc
       rcases hc with ⟨rfl, rfl⟩
